@@ -96,9 +96,17 @@ class Module:
             raise AnalysisError(f"anchor vanished: module-level name {name} not found in {self.rel}")
         return val
 
-    def ev(self, qual, **kw) -> Ev:
+    def ev(self, qual, roles=None, **kw) -> Ev:
+        """Evaluate a function.  ``roles`` ({canonical local name: role specification}, sa/roles.py) lets the caller refer to
+        locals by canonical names whatever the source calls them."""
         fn = self.func(qual)
         ct = self.ctypes.get(qual)
+        if roles is None:
+            from .rolespecs import ROLES
+            roles = ROLES.get((self.rel, qual))
+        if roles and not self.rel.endswith(".pyx"):
+            from .roles import canonicalise
+            fn, _ = canonicalise(self.text, fn, roles)
         return Ev(fn, self.ctx, ctypes=ct, **kw).run()
 
     def seg(self, node) -> str:
